@@ -1,0 +1,13 @@
+//go:build verif
+
+package web
+
+// RenderJSON writes headers and one JSON body; it cannot reach the manager.
+//@ func RenderJSON
+//@   requires w != nil
+//@   modifies ghost_nbody(w)
+//@   serves C14
+
+// TextToHTML: escaping / linkifying of a text body (C18's territory); no effect on program state.
+//@ func TextToHTML
+//@   trusted
